@@ -2,6 +2,7 @@ package harness
 
 import (
 	"bytes"
+	crand "crypto/rand"
 	"encoding/base64"
 	"encoding/json"
 	"errors"
@@ -12,6 +13,7 @@ import (
 	"net/url"
 	"regexp"
 	"strings"
+	"sync"
 	"testing"
 	"time"
 
@@ -39,6 +41,7 @@ type spvVec struct {
 	Prop string `json:"prop"`
 	Cfg  struct {
 		EidSet      bool     `json:"eidSet"`
+		NoIdent     bool     `json:"noIdent"`
 		AudVal      string   `json:"audVal"`
 		Cur         string   `json:"cur"`
 		AllowIdp    bool     `json:"allowIdp"`
@@ -176,7 +179,47 @@ type spvCase struct {
 	assnIDs  []string
 	expAud   string
 	statusIn string // concrete status value the SP should report
+	artReq   []byte // the 20 bytes the SP will draw for the ID of its ArtifactResolve request (class artreq)
 }
+
+// spvRandReader hands a goroutine the bytes armed for it first (so that the ID of the ArtifactResolve
+// request a case is about to provoke is known when the case is built), then real randomness.
+type spvRandReaderT struct {
+	mu    sync.Mutex
+	armed map[int64][]byte
+}
+
+var spvRandReader = &spvRandReaderT{armed: map[int64][]byte{}}
+
+func (r *spvRandReaderT) Read(p []byte) (int, error) {
+	id := goid()
+	r.mu.Lock()
+	b := r.armed[id]
+	if len(b) > 0 {
+		n := copy(p, b)
+		r.armed[id] = b[n:]
+		r.mu.Unlock()
+		if n < len(p) {
+			m, err := crand.Read(p[n:])
+			return n + m, err
+		}
+		return n, nil
+	}
+	r.mu.Unlock()
+	return crand.Read(p)
+}
+func (r *spvRandReaderT) arm(b []byte) {
+	r.mu.Lock()
+	r.armed[goid()] = append([]byte(nil), b...)
+	r.mu.Unlock()
+}
+func (r *spvRandReaderT) disarm() {
+	r.mu.Lock()
+	delete(r.armed, goid())
+	r.mu.Unlock()
+}
+
+func (c *spvCase) artReqID() string { return fmt.Sprintf("id-%x", c.artReq) }
 
 func spvConcretise(v *spvVec, now time.Time, rng *rand.Rand) *spvCase {
 	c := &spvCase{v: v, now: now}
@@ -196,6 +239,11 @@ func spvConcretise(v *spvVec, now time.Time, rng *rand.Rand) *spvCase {
 	if !v.Cfg.EidSet {
 		c.expAud = spMetadata
 	}
+	if v.Cfg.NoIdent {
+		c.expAud = ""
+	}
+	c.artReq = make([]byte, 20)
+	rng.Read(c.artReq)
 	tIn := func(off time.Duration) *string { return sp(now.Add(off).UTC().Format("2006-01-02T15:04:05.000Z")) }
 	inst := func(cls string, in, out time.Duration) *string {
 		if cls == "out" {
@@ -204,6 +252,9 @@ func spvConcretise(v *spvVec, now time.Time, rng *rand.Rand) *spvCase {
 		return tIn(in)
 	}
 	irt := func(cls string) *string {
+		if cls == "artreq" {
+			return sp(c.artReqID())
+		}
 		s, ok := spvReqID(cls)
 		if !ok {
 			return nil
@@ -331,6 +382,9 @@ func spvRun(c *spvCase) spvObs {
 	if !v.Cfg.EidSet {
 		s.EntityID = ""
 	}
+	if v.Cfg.NoIdent {
+		s.EntityID, s.MetadataURL = "", url.URL{}
+	}
 	s.AllowIDPInitiated = v.Cfg.AllowIdp
 	switch v.Cfg.AudVal {
 	case "ok":
@@ -358,6 +412,8 @@ func spvRun(c *spvCase) spvObs {
 			req.ParseForm()
 			a, err = s.ParseResponse(req, c.outIDs)
 		case "artifact":
+			spvRandReader.arm(c.artReq)
+			defer spvRandReader.disarm()
 			s.HTTPClient = &http.Client{Transport: rtFunc(func(r *http.Request) (*http.Response, error) {
 				body, _ := io.ReadAll(r.Body)
 				m := reResolveID.FindSubmatch(body)
@@ -421,6 +477,12 @@ func spvJudge(rep *Report, prop string, c *spvCase, o spvObs) {
 		}
 		return v.Why.C04
 	}()
+	if usesArtReq(v) && (len(o.ResolveIDs) == 0 || o.ResolveIDs[0] != c.artReqID()) {
+		// the case is about the ID of the ArtifactResolve request; if the SP did not use the predicted
+		// one (another ID scheme, no resolution attempted) the case says nothing
+		rep.DriftCase(c.key, "the ArtifactResolve ID was not the predicted one", map[string]any{"predicted": c.artReqID(), "seen": o.ResolveIDs})
+		return
+	}
 	switch {
 	case o.Panic != "":
 		if v.Class == "MustAccept" {
@@ -500,6 +562,20 @@ func spvJudge(rep *Report, prop string, c *spvCase, o spvObs) {
 	}
 }
 
+func usesArtReq(v *spvVec) bool {
+	if v.In.RIRT == "artreq" {
+		return true
+	}
+	for _, a := range v.In.Assns {
+		for _, cf := range a.Confs {
+			if cf.Irt == "artreq" {
+				return true
+			}
+		}
+	}
+	return false
+}
+
 func allFalse(b []bool) bool {
 	for _, x := range b {
 		if x {
@@ -526,8 +602,9 @@ func runSPValidateFile(t *testing.T, prop, file, family string) {
 		rep.Break("no vectors")
 		return
 	}
-	oldNow := saml.TimeNow
-	defer func() { saml.TimeNow = oldNow }()
+	oldNow, oldRand := saml.TimeNow, saml.RandReader
+	defer func() { saml.TimeNow, saml.RandReader = oldNow, oldRand }()
+	saml.RandReader = spvRandReader
 	now := c02Now.Add(time.Duration(seedVal()%1000) * time.Hour)
 	saml.TimeNow = func() time.Time { return now }
 	reps := 1
@@ -577,7 +654,7 @@ func TestC02Cross(t *testing.T) { runSPValidateFile(t, "C02", "xvectors.ndjson",
 func TestC03Cross(t *testing.T) { runSPValidateFile(t, "C03", "xvectors.ndjson", "X") }
 func TestC04Cross(t *testing.T) { runSPValidateFile(t, "C04", "xvectors.ndjson", "X") }
 func TestC03(t *testing.T)      { runSPValidate(t, "C03") }
-func TestC04(t *testing.T) { runSPValidate(t, "C04") }
+func TestC04(t *testing.T)      { runSPValidate(t, "C04") }
 
 func spvReplay(prop string) replayFunc {
 	return func(t *testing.T, raw []byte) (bool, string) {
